@@ -767,7 +767,8 @@ FN('read_chunked', props=['C07', 'C12', 'C01'], ret='r',
                     lemma_read_unfold(*dechunker, src@.subrange(input_used as int, src.len() as int), dst.len() - output_used, stop_on_chunk_boundary); }
 ''',
               }},
-   after=[('output_used += o;', '''
+   # (anchored at the statement that follows BOTH counter updates, so that their order does not matter)
+   before=[('if i == 0 ||', '''
             proof {
                 let win0 = src@.subrange(p_in as int, src.len() as int);
                 assert(win0.subrange(i as int, win0.len() as int) =~= src@.subrange(input_used as int, src.len() as int));
